@@ -61,6 +61,7 @@ class Inbound:
         rdtype: dns.rdatatype.RdataType = dns.rdatatype.AXFR,
         serial: int | None = None,
         is_udp: bool = False,
+        require_tsig: bool = False,
     ):
         """Initialize an inbound zone transfer.
 
@@ -73,6 +74,10 @@ class Inbound:
 
         :param is_udp: Whether UDP is being used for this XFR.
         :type is_udp: bool
+        :param require_tsig: Whether the message that completes the transfer
+            must carry a TSIG (i.e. the transfer is being authenticated).  The
+            transfer is rejected, and nothing is committed, if it does not.
+        :type require_tsig: bool
         """
         self.txn_manager = txn_manager
         self.txn: dns.transaction.Transaction | None = None
@@ -89,6 +94,7 @@ class Inbound:
             raise ValueError("rdtype is not IXFR or AXFR")
         self.serial = serial
         self.is_udp = is_udp
+        self.require_tsig = require_tsig
         _, _, origin = txn_manager.origin_information()
         if origin is None:
             raise ValueError("transaction manager must supply an origin for XFRs")
@@ -201,6 +207,12 @@ class Inbound:
                         # has already been applied to the zone.
                         #
                         raise dns.exception.FormError("answers after final SOA")
+                    if self.require_tsig and not message.had_tsig:
+                        #
+                        # The message that completes an authenticated transfer
+                        # must be signed.  Reject it before committing.
+                        #
+                        raise dns.exception.FormError("missing TSIG")
                     self.txn.replace(name, rdataset)
                     self.txn.commit()
                     self.txn = None
